@@ -236,6 +236,14 @@ func (p *processor) process(in ion.Reader) error {
 			}
 		}
 
+		if in.IsNull() {
+			// null or null.<type>: there is no value to fetch (the accessors return nil).
+			if err = p.out.WriteNullType(in.Type()); err != nil {
+				return p.error(write, err)
+			}
+			continue
+		}
+
 		switch in.Type() {
 		case ion.NullType:
 			err = p.out.WriteNull()
